@@ -471,6 +471,21 @@ def stop (s : St) : St × List Ev :=
     let r3 := stopTail r2.1
     (r3.1, r1.2 ++ r2.2 ++ r3.2)
 
+/-! ### worker pool (MHD_OPTION_THREAD_POOL_SIZE) -/
+
+/-- MHD_start_daemon_va: `conns_per_thread = limit / n`, `leftover_conns = limit % n`; worker `i`
+    gets `conns_per_thread`, plus one if `i < leftover_conns` -/
+def splitLimit (limit n i : Nat) : Nat := limit / n + (if i < limit % n then 1 else 0)
+
+/-- the `connection_limit` of the `n` workers -/
+def workerLimits (limit n : Nat) : List Nat := (List.range n).map (splitLimit limit n)
+
+/-- MHD_add_connection with a worker pool: the first worker with
+    `worker->connections < worker->connection_limit`, starting at offset `off` (the socket number);
+    `none` = all workers at their limit, the connection is refused -/
+def pickWorker (conns limits : Nat → Nat) (n off : Nat) : Option Nat :=
+  (List.range n).findSome? (fun k => if conns ((k + off) % n) < limits ((k + off) % n) then some ((k + off) % n) else none)
+
 /-! ### script-level operations -/
 
 inductive Op
